@@ -129,6 +129,11 @@ func runFundProposal(ctx *action.Context, tx action.RawTx) (bool, action.Respons
 			Log: action.ErrWrongTxType.Wrap(err).Marshal(),
 		}
 	}
+	// the funding must be a non-negative amount of a known currency
+	if !fundProposal.FundValue.IsValid(ctx.Currencies) {
+		return helpers.LogAndReturnFalse(ctx.Logger, action.ErrInvalidAmount, fundProposal.Tags(), errors.New("invalid fund value"))
+	}
+
 	//1. check if proposal exists
 
 	proposal, err := ctx.ProposalMasterStore.Proposal.WithPrefixType(governance.ProposalStateActive).Get(fundProposal.ProposalId)
